@@ -19,7 +19,7 @@ From Coq Require Import String ZArith List Bool.
 From Nexus Require Import Transport.GoArith Transport.RawOps Transport.RawFrame Transport.RawSpec
   Transport.RawProofs Transport.RawGen Transport.RawConformArith Transport.RawConformFrame
   Transport.RawHandshake Transport.RawConformHandshake Transport.PeerDiscipline
-  Transport.PeerDisciplineProofs Transport.RawLegacy Transport.RawTheorems gen.GenC15.
+  Transport.PeerDisciplineProofs Transport.RawLegacy Transport.RawTheorems Transport.WsPeer gen.GenC15.
 Import ListNotations.
 Open Scope Z_scope.
 
@@ -165,6 +165,17 @@ Theorem no_interleave_partial : forall n bodies pings sched,
   calm sched s0 -> contiguous (tags (run sched s0)).
 Proof. exact no_interleave_partial_legacy. Qed.
 Print Assumptions no_interleave_partial.
+
+(** ** websocket *)
+
+(** both sender loops of the websocket peer (keep-alive off / on) write
+    exactly the serializable messages of the queue, in order: a message the
+    codec cannot encode is dropped alone ([ser m = None]: cannot be encoded) *)
+Theorem ws_unserialisable_dropped_alone : forall (M : Type) (ser : M -> option (list Z)) msgs,
+  ws_send M ser GenC15.ws_send_plain msgs = keep_ser M ser msgs /\
+  ws_send M ser GenC15.ws_send_keepalive msgs = keep_ser M ser msgs.
+Proof. exact ws_unserialisable_dropped_alone_gen. Qed.
+Print Assumptions ws_unserialisable_dropped_alone.
 
 (** ** non-vacuity: the hypotheses above are satisfiable, on concrete inputs *)
 
